@@ -485,15 +485,17 @@ def _strategy():
         requests=('incr', 'decr', 'set', 'restart', 'reload', 'stop',
                   'start'),
         hooks=True, exec_fail=True, rm=True, max_watchers=3, max_ops=20,
-        set_other=True, config=True)
+        set_other=True, config=True, never_exec=True)
 
     @st.composite
     def case(draw):
         c = draw(base)
         # favour long operations: stubborn default behaviour, waiting on
-        c["default_beh"] = draw(st.sampled_from(
+        beh = draw(st.sampled_from(
             [{"react": "ignore"}, {"react": "die", "delay": 0.15},
              {"react": "die", "delay": 0.0}]))
+        if not (c.get("default_beh") or {}).get("exec_fail"):
+            c["default_beh"] = beh      # (else: a command that never runs)
         for op in c["ops"]:
             if op[0] == 'req' and draw(st.integers(0, 3)) > 0:
                 op[2]["waiting"] = True
